@@ -37,6 +37,22 @@ def cases(rng, tier):
                 return f
             c.oracle = oracle
             yield c
+            if i % 4 == 0 and t["slices"]:
+                # a write that fails part-way must not leave the caller's objects converted: write again and compare
+                L, tmh, slices = G.table_script(t)
+                nb = len(L)
+                total = len(ref) // 2
+                for j, k in enumerate(sorted(set(rng.randint(0, max(0, total - 1)) for _ in range(4)))):
+                    L += ["out %d %d" % (20 + j, k), "wfh %d" % (20 + j), "wtm %d %d" % (20 + j, tmh)] + ["wts %d %d" % (20 + j, s_) for s_ in slices] + ["wend %d" % (20 + j)]
+                L += G.write_script(tmh, slices, out=9)
+                L += ["tsdec %d" % s_ for s_ in slices]
+                nL = len(L) - len(slices)
+
+                def oracle2(cobs, ref=ref, nL=nL):
+                    got = (cobs.val(nL) or "").partition(" ")[2]
+                    if got != ref: return ["after failed writes the same table is written differently (objects were left byte-swapped)"]
+                    return []
+                yield Case("w%d" % i, L, oracle=oracle2, meta={"dist": {"kind": "failed-write-then-retry"}})
         else:
             layouts = {}
             for si, sl in enumerate(t["slices"]):
